@@ -250,10 +250,9 @@ def verify_contract(c, reg, timeout_ms=QUICK_TIMEOUT_MS, max_paths=4000, want_sm
         olds = {'old_' + k: snapshot(v) for k, v in env.items()}
         ctx.requires_len = len(ctx.pc)
         sig = inspect.signature(f)
+        call_kwargs = {k: v for k, v in env.items() if k in sig.parameters}
         if c.call is not None:
-            call_kwargs = dict(call_by_name(spec_ip, c.call, env))
-        else:
-            call_kwargs = {k: v for k, v in env.items() if k in sig.parameters}
+            call_kwargs.update(call_by_name(spec_ip, c.call, env))
         call_kwargs.update(c.kwargs)
         try:
             result = ip.call_function_ast(f, fnode, [], call_kwargs)
@@ -582,7 +581,9 @@ def replay_native(c, conc, warmup=None):
             w = dict(warmup)
             w['self'] = env['self']
             sigw = inspect.signature(f)
-            kw = dict(native_by_name(c.call, w)) if c.call is not None else {k: v for k, v in w.items() if k in sigw.parameters}
+            kw = {k: v for k, v in w.items() if k in sigw.parameters}
+            if c.call is not None:
+                kw.update(native_by_name(c.call, w))
             kw.update(c.kwargs)
             try:
                 f(**kw)
@@ -613,10 +614,9 @@ def replay_native(c, conc, warmup=None):
         fn, args, kwargs = native_by_name(c.build, env)
     else:
         sig = inspect.signature(f)
+        kwargs = {k: v for k, v in env.items() if k in sig.parameters}
         if c.call is not None:
-            kwargs = dict(native_by_name(c.call, env))
-        else:
-            kwargs = {k: v for k, v in env.items() if k in sig.parameters}
+            kwargs.update(native_by_name(c.call, env))
         kwargs.update(c.kwargs)
         fn, args = f, []
     exc = None
